@@ -48,9 +48,11 @@ CLAIMS = {
  'C08': ("Proof of: the donor decision procedure (first candidate, >= 2m, stays iff >= 3m), ranking (exactly the clusters with >= 2m points, "
          "ordered by decreasing covariance norm), the sampled points move from the donor to the recipient and nothing else changes, labels stay in "
          "range, points move only from a 2m-donor into an under-populated cluster, identity when nothing is under-populated, the caller's state is "
-         "never modified (also when RuntimeError is raised).", "4/C08",
-         "Size accounting after a move (recipient has >= m, donor keeps >= m, exactly m per refill) needs a counting argument over the relabelled "
-         "points: bounded run-time check only (all size vectors K<=5 sampled), NOT counted as proved. random.sample and sorted are assumed contracts."),
+         "never modified (also when RuntimeError is raised); size accounting: every cluster that had < 2 points gains exactly m (so holds >= m), "
+         "every cluster that lost points had >= 2m and keeps >= m, no other cluster grows (loop invariants over label counts; the counting "
+         "lemmas for a single-position store and for pointwise-equal lists are proved by induction in the lemma layer).", "4/C08",
+         "random.sample (m distinct indices) and sorted are assumed contracts. 'Repeated application across consecutive iterations' follows "
+         "from the contract being re-established (wf postcondition) but consecutive rounds are only exercised by the bounded phase-trace check."),
  'C09': ("Proof over the real loop with every phase replaced by its contract: 1 <= rounds <= limit, early exit only when the labelling equals the "
          "previous round's, labels/cost/MRFs returned are those of the final state, the final state was scored last; a ghost typestate on the model "
          "state makes 'repopulate only from round 2, then statistics, then MRFs, then relabel' a chain of call preconditions.", "4/C09",
